@@ -19,10 +19,10 @@ CHECKS = {
             "vehicle new nodes, and the documented timing rule's shape and inputs. Value-level correctness of the "
             "position searches is not decided.", "5 C01"),
     "C03": ("static analysis: field provenance tables of all output structs (pure data slices), unconditional-in-loop "
-            "reporting, dead-head emission condition, formation updates wherever tours change",
+            "reporting, dead-head emission condition, formation updates wherever tours change, hop validation of paths and loop form of the insertion position walks",
             "Decides which model quantity each JSON field is filled from, that every segment/slot/vehicle/cycle of the "
             "iterated sets is pushed unconditionally, that dead-head trips are emitted exactly under the location-change "
-            "test, and that formations follow tour changes. 'Exactly once' and equality of views on concrete schedules "
+            "test, that formations follow tour changes, and that the hops dead-head trips are listed for were validated (Path::new tests every hop, both insertion walks evict every unreachable node). 'Exactly once' and equality of views on concrete schedules "
             "are not decided.", "5 C03"),
     "C07": ("static analysis: flow lower-bound provenance, operand pairing in the requirement function, Option-presence "
             "abstract interpretation, objective level order, frame conditions of post-search stages",
